@@ -169,7 +169,7 @@ def main():
             cases.append(dict(ob='rt', ser=ser, code=206, nh=0, hlen=(1, 1), parts=list(parts)))
     cases += [dict(ob='corrupt', what='unknown-status-code', line='HTTP/1.1 299 OK'), dict(ob='corrupt', what='mismatched-reason-phrase', line='HTTP/1.1 200 Not Found'),
               dict(ob='corrupt', what='unsupported-version', line='HTTP/9.9 200 OK'), dict(ob='corrupt', what='missing-reason', line='HTTP/1.1 200')]
-    results = chk.run_cases(case, cases, label='serialise -> parse', case_timeout=200)
+    results = chk.run_cases(case, cases, label='serialise -> parse', case_timeout=600)
     chk.extra['results_compared'] = sum(r.get('compared', 0) for r in results)
 
     def replay(v):
